@@ -101,7 +101,8 @@ def cases(tier, seed):
                "nest_seed": rng.randint(0, 10 ** 9)}
     # ill-typed arguments at every position (finite table, enumerated)
     bads = ["int", "str", "none", "onlyfill", "run_noncallable", "onlycompute", "dict",
-            "fillrequest_only"]
+            "fillrequest_only", "str_percent", "str_format", "list_percent", "dict_percent",
+            "str_braces", "bytes", "float_nan"]
     for bad in bads:
         for n_before in range(0, 3):
             for n_after in range(0, 3):
@@ -205,7 +206,11 @@ class RequestOnly(object):
 def make_bad(name):
     return {"int": 5, "str": "s", "none": None, "onlyfill": OnlyFill(),
             "run_noncallable": RunNonCallable(), "onlycompute": OnlyCompute(),
-            "dict": {"a": 1}, "fillrequest_only": RequestOnly()}[name]
+            "dict": {"a": 1}, "fillrequest_only": RequestOnly(),
+            # arguments whose text contains formatting characters (they end up in the message)
+            "str_percent": "50%", "str_format": "%s and %d", "list_percent": ["%"],
+            "dict_percent": {"rate %": 0.5}, "str_braces": "{} {0} {name}",
+            "bytes": b"%x", "float_nan": float("nan")}[name]
 
 
 def run_case(r, obs):
